@@ -273,6 +273,9 @@ def end_to_end(ctx, spec, quiet, label, key):
                 ctx.violation("exception", case, {"via": via, "error": f"{type(e).__name__}: {e}", "tb": short_tb(5)})
                 continue
             judge_check(ctx, case, files, order, quiet, code, out, via)
+            if via == "check_command" and any(L > 30 for _, ls in spec for L in ls):
+                ctx.sample({"files": {r: list(v[1]) for r, v in files.items()}, "quiet": quiet, "observed_exit": code,
+                            "observed_listing": [ln.strip() for ln in out.split("\n") if ln.strip()][:4]})
         # via a directory: files are found by os.walk, in walk order
         try:
             code, out = run_check(ctx, root, ["."], quiet, "check_command")
@@ -445,8 +448,6 @@ def run(shard, ctx):
         for i in range(shard["cli"]):
             spec = [(lang, [rng.choice([12, 31, 45, 61, 75]) for _ in range(rng.randint(0, 3))]) for _ in range(rng.randint(1, 3))]
             cli_case(ctx, spec)
-        ctx.sample({"language": lang, "spec_example": [[lang, [15, 16, 31, 61]]], "expected_exit": 1,
-                    "expected_listing": ["61 ✖", "31 ⚠"]})
 
 
 def replay(case, ctx):
